@@ -35,6 +35,7 @@ extern "C" {
     pub fn cv_feed(cb: *mut c_void, items: *const u64, n: usize) -> usize;
     pub fn cv_iter_drain(it: *mut c_void, out: *mut u64, max: usize) -> usize;
     pub fn cv_iter_next(it: *mut c_void, out: *mut u64) -> i32;
+    pub fn cv_arr_iter(it: *mut c_void, st: *mut CvArrState);
     pub fn cv_opt_tag(o: *const c_void) -> u32;
     pub fn cv_opt_value(o: *const c_void) -> u64;
     pub fn cv_res_tag(r: *const c_void) -> u32;
@@ -51,4 +52,14 @@ extern "C" {
     pub fn cv_res816_tag(r: *const c_void) -> u32;
     pub fn cv_res816_ok(r: *const c_void) -> u8;
     pub fn cv_res816_err(r: *const c_void) -> u16;
+}
+
+/// state of an iterator built by the C side (cview.c: cv_arr_state)
+#[repr(C)]
+pub struct CvArrState {
+    pub items: *const u64,
+    pub n: usize,
+    pub pos: usize,
+    pub end_status: i32,
+    pub calls_after_end: usize,
 }
